@@ -416,38 +416,42 @@ class Compiler:
         return free_vars
 
     def _collect_var_decls(self, node, var_set: set):
-        """Collect all var declarations in a node."""
-        if isinstance(node, VariableDeclaration):
-            for decl in node.declarations:
-                var_set.add(decl.id.name)
-        elif isinstance(node, FunctionDeclaration):
-            var_set.add(node.id.name)
-            # Don't recurse into function body
-        elif isinstance(node, CatchClause):
-            # The catch parameter is a variable of the function like any other
-            var_set.add(node.param.name)
-            self._collect_var_decls(node.body, var_set)
-        elif isinstance(node, BlockStatement):
-            for stmt in node.body:
-                self._collect_var_decls(stmt, var_set)
-        elif hasattr(node, "__dict__"):
-            for key, value in node.__dict__.items():
-                if isinstance(value, Node) and not isinstance(
-                    value,
-                    (FunctionDeclaration, FunctionExpression, ArrowFunctionExpression),
-                ):
-                    self._collect_var_decls(value, var_set)
-                elif isinstance(value, list):
-                    for item in value:
-                        if isinstance(item, Node) and not isinstance(
-                            item,
-                            (
-                                FunctionDeclaration,
-                                FunctionExpression,
-                                ArrowFunctionExpression,
-                            ),
-                        ):
-                            self._collect_var_decls(item, var_set)
+        """Collect all var declarations in a node.
+
+        Iterative (explicit work list) so that deeply nested blocks do not
+        recurse in the host.
+        """
+        function_nodes = (
+            FunctionDeclaration,
+            FunctionExpression,
+            ArrowFunctionExpression,
+        )
+        work = [node]
+        while work:
+            node = work.pop()
+            if isinstance(node, VariableDeclaration):
+                for decl in node.declarations:
+                    var_set.add(decl.id.name)
+            elif isinstance(node, FunctionDeclaration):
+                var_set.add(node.id.name)
+                # Don't descend into the function body
+            elif isinstance(node, CatchClause):
+                # The catch parameter is a variable of the function like any other
+                var_set.add(node.param.name)
+                work.append(node.body)
+            elif isinstance(node, BlockStatement):
+                work.extend(node.body)
+            elif hasattr(node, "__dict__"):
+                for value in node.__dict__.values():
+                    if isinstance(value, Node):
+                        if not isinstance(value, function_nodes):
+                            work.append(value)
+                    elif isinstance(value, list):
+                        for item in value:
+                            if isinstance(item, Node) and not isinstance(
+                                item, function_nodes
+                            ):
+                                work.append(item)
 
     # ---- Declaration instantiation ----
 
